@@ -112,7 +112,9 @@ Notation callf := (call_fn E VS oB).
 
 Ltac case_on t := let H := fresh "H" in destruct t eqn:H; cbn; try reflexivity.
 Ltac callr lem := rewrite exec_call; cbn; rewrite lem; cbn.
-Ltac norm := unfold leave, leave_block, with_ret, with_env, add_log, with_cs, with_g, with_cur, with_max, with_tb, enter; cbn.
+(* normal form of a state expression: call-by-need, so that nested with_* do not duplicate their argument *)
+Ltac norm := lazy beta iota zeta delta [leave leave_block with_ret with_env add_log with_cs with_g with_cur with_max with_tb enter
+                                       env cs charged lg ret bg bcur bmax btb skipn List.length Nat.sub combine fst snd].
 
 (* the table accounting after an erasure *)
 Definition tb_charged (ch : bool) (t : tbl) : tbl := if ch then t else t_erase t (o_tomb (ob oB)).
@@ -569,8 +571,30 @@ Proof.
     destruct (add64 (bcur b) (es u)) as [c2|]; cbn.
     - destruct (set_head _ (gseal (bg b)) (ob_addr oB)) as [h'|]; cbn; [|reflexivity]. norm. rewrite !app_nil_r. reflexivity.
     - destruct (set_head _ (gseal (bg b)) (ob_addr oB)) as [h'|]; reflexivity. }
-  destruct (mul64 (capacity (btb b)) 2) as [cc|]; cbn; [|reflexivity].
-  callr P2_lrucache_reallocate_call. rewrite Halloc.
-  Show.
+  rewrite exec_call. cbn.
+  destruct (mul64 (capacity (btb b)) 2) as [cc|] eqn:Hmul; cbn; [|reflexivity].
+  rewrite P2_lrucache_reallocate_call. cbn. rewrite Halloc.
+  destruct (t_alloc E (N.max cc 1) true) as [t'| |] eqn:Ht; cbn; try reflexivity.
+  destruct (b_moves_chk (bg b) (ob_moves oB)) as [g1|] eqn:Hm; cbn; [|destruct (0 <? growth_left t' _); reflexivity].
+  destruct (moves_chk_inv _ _ _ Hm) as (H1 & H2 & _).
+  destruct (nextof (gh g1) (gseal g1)) as [x1|] eqn:Hx1; cbn.
+  2:{ destruct (0 <? growth_left t' _); cbn; [|reflexivity]. destruct (mem_addr (ob_addr oB) (gseal g1 :: glist g1)); [reflexivity|].
+      rewrite b_insert_new_eq, Hx1. reflexivity. }
+  rewrite N.eqb_refl. cbn. unfold try_insert_no_grow at 1. cbn.
+  rewrite (t_alloc_tombs _ _ _ _ Ht), N.ltb_irrefl, andb_false_r, H2.
+  destruct (0 <? growth_left t' (N.of_nat (List.length (glist (bg b))))) eqn:Hg2; cbn.
+  { destruct (mem_addr (ob_addr oB) (gseal g1 :: glist g1)); cbn; [reflexivity|].
+    rewrite b_insert_new_eq, Hx1. cbn. rewrite !H1.
+    destruct (add64 (bcur b) (es u)) as [c2|]; cbn.
+    - destruct (set_head _ (gseal (bg b)) (ob_addr oB)) as [h'|]; cbn; [|reflexivity]. norm. cbn. rewrite !app_nil_r. reflexivity.
+    - destruct (set_head _ (gseal (bg b)) (ob_addr oB)) as [h'|]; reflexivity. }
+  (* a second failure: the model gives up (None); the program reallocates once more and runs out of rounds *)
+  rewrite exec_call. cbn.
+  destruct (mul64 (capacity t') 2) as [cc2|]; cbn; [|reflexivity].
+  rewrite P2_lrucache_reallocate_call. cbn.
+  destruct (t_alloc E (N.max cc2 1) (o_alloc (ob oB))) as [t''| |]; cbn; try reflexivity.
+  destruct (b_moves_chk g1 (ob_moves oB)) as [g3|]; cbn; [|reflexivity].
+  destruct (nextof (gh g3) (gseal g3)); cbn; reflexivity.
+Qed.
 Abort.
 End S.
